@@ -468,6 +468,229 @@ sexp sexp_finalize (sexp ctx) {
 }
 #endif
 
+#if SEXP_USE_VERIF_HOOKS
+/* ---- verification hooks: see /verif/DESIGN.md (H1 poison, H2 gc schedule, H3 audit+trace) ---- */
+#if defined(__has_feature)
+#if __has_feature(address_sanitizer)
+#define SEXP_VERIF_ASAN 1
+#endif
+#endif
+#if defined(__SANITIZE_ADDRESS__)
+#define SEXP_VERIF_ASAN 1
+#endif
+#ifdef SEXP_VERIF_ASAN
+#include <sanitizer/asan_interface.h>
+#define verif_poison(p, n) ASAN_POISON_MEMORY_REGION((p), (n))
+#define verif_unpoison(p, n) ASAN_UNPOISON_MEMORY_REGION((p), (n))
+#else
+#define verif_poison(p, n)
+#define verif_unpoison(p, n)
+#endif
+
+static int verif_inited = 0, verif_audit_on = 0, verif_in_gc = 0, verif_dump_all = 0;
+static FILE *verif_trace = NULL;
+static unsigned long verif_alloc_no = 0, verif_gc_every = 0, verif_gc_seed = 0, verif_gc_prob = 0;
+static unsigned long verif_gc_at[64]; static int verif_gc_nat = 0;
+static unsigned long verif_dump_at[64]; static int verif_dump_nat = 0;
+unsigned long sexp_verif_audit_failures = 0, sexp_verif_forced_gcs = 0;
+int sexp_verif_env_loaded = 0;  /* set by sexp_load_standard_env when it returns */
+static int verif_gc_early = 0;
+__thread int sexp_verif_bootstrapping = 0;  /* set by sexp_make_context while it builds a root context */
+
+static void verif_init (void) {
+  char *s, *e;
+  verif_inited = 1;
+  if ((s = getenv("CHIBI_VERIF_GC"))) {
+    if (!strncmp(s, "every:", 6)) verif_gc_every = strtoul(s+6, NULL, 10);
+    else if (!strncmp(s, "at:", 3)) {
+      for (s += 3; *s && verif_gc_nat < 64; s = (*e ? e+1 : e)) verif_gc_at[verif_gc_nat++] = strtoul(s, &e, 10);
+    } else if (!strncmp(s, "seed:", 5)) {
+      verif_gc_seed = strtoul(s+5, &e, 10) * 2654435761UL + 1;
+      verif_gc_prob = (*e ? strtoul(e+1, NULL, 10) : 100);
+    }
+  }
+  if ((s = getenv("CHIBI_VERIF_GC_EARLY"))) verif_gc_early = atoi(s);
+  if ((s = getenv("CHIBI_VERIF_AUDIT"))) verif_audit_on = atoi(s);
+  if ((s = getenv("CHIBI_VERIF_TRACE")) && *s) verif_trace = fopen(s, "w");
+  if ((s = getenv("CHIBI_VERIF_DUMP"))) {
+    if (!strcmp(s, "all")) verif_dump_all = 1;
+    else for ( ; *s && verif_dump_nat < 64; s = (*e ? e+1 : e)) verif_dump_at[verif_dump_nat++] = strtoul(s, &e, 10);
+  }
+}
+
+/* H2: is a collection forced before this allocation? */
+static int verif_gc_due (void) {
+  int i;
+  if (!verif_inited) verif_init();
+  if (!verif_gc_early && !sexp_verif_env_loaded) return 0;   /* allocations are numbered from the start of the schedule */
+  ++verif_alloc_no;
+  if (verif_in_gc) return 0;
+  if (verif_gc_every) return (verif_alloc_no % verif_gc_every) == 0;
+  for (i = 0; i < verif_gc_nat; i++) if (verif_gc_at[i] == verif_alloc_no) return 1;
+  if (verif_gc_seed) {
+    verif_gc_seed = verif_gc_seed * 6364136223846793005UL + 1442695040888963407UL;
+    return ((verif_gc_seed >> 33) % (verif_gc_prob ? verif_gc_prob : 1)) == 0;
+  }
+  return 0;
+}
+
+static int verif_dump_due (sexp ctx) {
+  int i;
+  if (!verif_trace) return 0;
+  if (verif_dump_all) return 1;
+  for (i = 0; i < verif_dump_nat; i++) if (verif_dump_at[i] == (unsigned long)sexp_context_gc_count(ctx)) return 1;
+  return 0;
+}
+
+/* locate a pointer: heap index and offset from h->data, or -1 when outside every heap */
+static int verif_locate (sexp ctx, void *x, unsigned long *off) {
+  sexp_heap h; int i = 0;
+  for (h = sexp_context_heap(ctx); h; h = h->next, i++)
+    if ((char*)x >= (char*)h->data && (char*)x < (char*)h->data + h->size) {
+      *off = (unsigned long)((char*)x - (char*)h->data);
+      return i;
+    }
+  return -1;
+}
+
+static void verif_print_ref (sexp ctx, sexp v) {
+  unsigned long off; int hi;
+  if (!v || !sexp_pointerp(v)) { fprintf(verif_trace, " i"); return; }
+  hi = verif_locate(ctx, v, &off);
+  if (hi < 0) fprintf(verif_trace, " x"); else fprintf(verif_trace, " %d:%lu", hi, off);
+}
+
+/* H3 dump: every chunk of every heap ("phase" = pre | marked | weak | post) */
+static void verif_dump (sexp ctx, const char *phase) {
+  sexp_heap h; sexp p, end, t; sexp_free_list q, r; int hi = 0; sexp_sint_t i, n, wn;
+  unsigned long off; size_t size; sexp *v; struct sexp_gc_var_t *saves;
+  fprintf(verif_trace, "D %s gc=%lu alloc=%lu\n", phase, (unsigned long)sexp_context_gc_count(ctx), verif_alloc_no);
+  hi = verif_locate(ctx, ctx, &off);
+  fprintf(verif_trace, "R %d:%lu\n", hi, off);
+  for (hi = 0, h = sexp_context_heap(ctx); h; h = h->next, hi++) {
+    fprintf(verif_trace, "H %d %lu\n", hi, (unsigned long)h->size);
+    p = sexp_heap_first_block(h); q = h->free_list; end = sexp_heap_end(h);
+    while (p < end) {
+      for (r = q->next; r && ((char*)r < (char*)p); q = r, r = r->next) ;
+      off = (unsigned long)((char*)p - (char*)h->data);
+      if ((char*)r == (char*)p) {
+        fprintf(verif_trace, "F %lu %lu\n", off, (unsigned long)r->size);
+        p = (sexp) (((char*)p) + r->size);
+        continue;
+      }
+      size = sexp_heap_align(sexp_allocated_bytes(ctx, p));
+      t = sexp_object_type(ctx, p);
+      n = sexp_type_num_slots_of_object(t, p);
+      fprintf(verif_trace, "O %lu %lu %d %d %d", off, (unsigned long)size, (int)sexp_pointer_tag(p), (int)sexp_markedp(p), (int)sexp_brokenp(p));
+      fprintf(verif_trace, " S");
+      v = (sexp*) (((char*)p) + sexp_type_field_base(t));
+      for (i = 0; i < n; i++) verif_print_ref(ctx, v[i]);
+      fprintf(verif_trace, " W");
+      if (sexp_type_weak_base(t) > 0) {
+        v = (sexp*) ((char*)p + sexp_type_weak_base(t));
+        wn = sexp_type_num_weak_slots_of_object(t, p);
+        for (i = 0; i < wn; i++) verif_print_ref(ctx, v[i]);
+        fprintf(verif_trace, " X");
+        for ( ; i < wn + sexp_type_weak_len_extra(t); i++) verif_print_ref(ctx, v[i]);
+      }
+      if (sexp_contextp(p)) {
+        fprintf(verif_trace, " C");
+        for (saves = sexp_context_saves(p); saves; saves = saves->next)
+          if (saves->var) verif_print_ref(ctx, *(saves->var));
+      }
+      fprintf(verif_trace, "\n");
+      if (size == 0) { fprintf(verif_trace, "E zero-size object\n"); break; }
+      p = (sexp) (((char*)p) + size);
+    }
+  }
+  fprintf(verif_trace, "E\n");
+  fflush(verif_trace);
+}
+
+static int verif_cmp_ptr (const void *a, const void *b) {
+  return (*(char**)a < *(char**)b) ? -1 : (*(char**)a > *(char**)b);
+}
+
+/* H3 audit after a collection: exact tiling, free-list shape, marks clear, closedness */
+static void verif_audit (sexp ctx) {
+  sexp_heap h; sexp p, end, t; sexp_free_list q, r; size_t size; sexp *v; sexp_sint_t i, n;
+  char **starts; size_t nstarts = 0, cap = 1024; const char *why = NULL; char *prev_end; void *key;
+  starts = (char**) malloc(cap * sizeof(char*));
+  for (h = sexp_context_heap(ctx); h && !why; h = h->next) {
+    /* free list: starts with the zero-size sentinel at data, strictly increasing, inside, not adjacent */
+    q = h->free_list;
+    if ((char*)q != (char*)h->data || q->size != 0) why = "free list does not start with the sentinel";
+    prev_end = (char*)h->data + sexp_heap_align(sexp_free_chunk_size);
+    for (r = q->next; r && !why; r = r->next) {
+      if ((char*)r < prev_end) why = "free list not sorted or chunks overlap";
+      else if ((char*)r == prev_end && prev_end != (char*)sexp_heap_first_block(h)) why = "adjacent free chunks not coalesced";
+      else if ((char*)r + r->size > (char*)sexp_heap_end(h)) why = "free chunk past the end of the heap";
+      else if (r->size == 0 || r->size != sexp_heap_align(r->size)) why = "free chunk with bad size";
+      prev_end = (char*)r + r->size;
+    }
+    /* tiling */
+    p = sexp_heap_first_block(h); q = h->free_list; end = sexp_heap_end(h);
+    while (p < end && !why) {
+      for (r = q->next; r && ((char*)r < (char*)p); q = r, r = r->next) ;
+      if ((char*)r == (char*)p) { p = (sexp) (((char*)p) + r->size); continue; }
+      if (r && (char*)q != (char*)h->data && (char*)q + q->size > (char*)p) { why = "object inside a free chunk"; break; }
+      size = sexp_heap_align(sexp_allocated_bytes(ctx, p));
+      if (size == 0) { why = "zero-size object"; break; }
+      if (r && (char*)p + size > (char*)r) { why = "object overlaps the next free chunk"; break; }
+      if (sexp_markedp(p)) { why = "mark left set after sweep"; break; }
+      if (nstarts == cap) { cap *= 2; starts = (char**) realloc(starts, cap * sizeof(char*)); }
+      starts[nstarts++] = (char*)p;
+      p = (sexp) (((char*)p) + size);
+    }
+    if (!why && p != end) why = "chunks do not tile the heap exactly";
+  }
+  if (!why) {
+    qsort(starts, nstarts, sizeof(char*), verif_cmp_ptr);
+    for (h = sexp_context_heap(ctx); h && !why; h = h->next) {
+      p = sexp_heap_first_block(h); q = h->free_list; end = sexp_heap_end(h);
+      while (p < end && !why) {
+        for (r = q->next; r && ((char*)r < (char*)p); q = r, r = r->next) ;
+        if ((char*)r == (char*)p) { p = (sexp) (((char*)p) + r->size); continue; }
+        size = sexp_heap_align(sexp_allocated_bytes(ctx, p));
+        t = sexp_object_type(ctx, p);
+        n = sexp_type_num_slots_of_object(t, p);
+        v = (sexp*) (((char*)p) + sexp_type_field_base(t));
+        for (i = 0; i < n && !why; i++)
+          if (v[i] && sexp_pointerp(v[i])) {
+            unsigned long off;
+            if (verif_locate(ctx, v[i], &off) < 0) continue; /* static object outside the heaps */
+            key = (void*)v[i];
+            if (!bsearch(&key, starts, nstarts, sizeof(char*), verif_cmp_ptr)) {
+              why = "slot of a live object does not designate the start of a live object";
+              fprintf(stderr, "VERIF-AUDIT detail: object tag %d slot %d\n", (int)sexp_pointer_tag(p), (int)i);
+            }
+          }
+        p = (sexp) (((char*)p) + size);
+      }
+    }
+  }
+  free(starts);
+  if (why) {
+    ++sexp_verif_audit_failures;
+    fprintf(stderr, "VERIF-AUDIT FAIL gc=%lu: %s\n", (unsigned long)sexp_context_gc_count(ctx), why);
+    if (verif_trace) fprintf(verif_trace, "AUDIT FAIL %s\n", why);
+  } else if (verif_trace) fprintf(verif_trace, "AUDIT OK gc=%lu\n", (unsigned long)sexp_context_gc_count(ctx));
+}
+
+/* H1: under ASan, free chunks are poisoned between collections (header stays readable) */
+static void verif_unpoison_heaps (sexp ctx) {
+  sexp_heap h;
+  for (h = sexp_context_heap(ctx); h; h = h->next) verif_unpoison(h->data, h->size);
+}
+static void verif_poison_free (sexp ctx) {
+  sexp_heap h; sexp_free_list r;
+  for (h = sexp_context_heap(ctx); h; h = h->next)
+    for (r = h->free_list->next; r; r = r->next)
+      if (r->size > sexp_heap_align(sexp_free_chunk_size))
+        verif_poison((char*)r + sexp_heap_align(sexp_free_chunk_size), r->size - sexp_heap_align(sexp_free_chunk_size));
+}
+#endif  /* SEXP_USE_VERIF_HOOKS */
+
 sexp sexp_sweep (sexp ctx, size_t *sum_freed_ptr) {
   size_t freed, max_freed=0, sum_freed=0, size;
   sexp_heap h = sexp_context_heap(ctx);
@@ -559,12 +782,33 @@ sexp sexp_gc (sexp ctx, size_t *sum_freed) {
   sexp_debug_printf("%p (heap: %p size: %lu)", ctx, sexp_context_heap(ctx),
                     sexp_heap_total_size(sexp_context_heap(ctx)));
 #endif
+#if SEXP_USE_VERIF_HOOKS
+  int verif_dumping;
+  if (!verif_inited) verif_init();
+  verif_in_gc++;
+  verif_unpoison_heaps(ctx);
+  verif_dumping = verif_dump_due(ctx);
+  if (verif_dumping) verif_dump(ctx, "pre");
+#endif
   sexp_mark_global_symbols(ctx);
   sexp_mark(ctx, ctx);
   sexp_conservative_mark(ctx);
+#if SEXP_USE_VERIF_HOOKS
+  if (verif_dumping) verif_dump(ctx, "marked");
+#endif
   sexp_reset_weak_references(ctx);
+#if SEXP_USE_VERIF_HOOKS
+  if (verif_dumping) verif_dump(ctx, "weak");
+#endif
   finalized = sexp_finalize(ctx);
   res = sexp_sweep(ctx, sum_freed);
+#if SEXP_USE_VERIF_HOOKS
+  if (verif_dumping) verif_dump(ctx, "post");
+  if (verif_audit_on) verif_audit(ctx);
+  if (verif_trace && !verif_dumping) fprintf(verif_trace, "C gc=%lu alloc=%lu\n", (unsigned long)sexp_context_gc_count(ctx), verif_alloc_no);
+  verif_poison_free(ctx);
+  verif_in_gc--;
+#endif
   ++sexp_context_gc_count(ctx);
 #if SEXP_USE_TIME_GC
   getrusage(RUSAGE_SELF, &end);
@@ -631,6 +875,12 @@ int sexp_grow_heap (sexp ctx, size_t size, size_t chunk_size) {
     tmp->next = h->next;
     h->next = tmp;
   }
+#if SEXP_USE_VERIF_HOOKS
+  if (verif_trace) fprintf(verif_trace, "G %lu %lu %d\n", (unsigned long)size, (unsigned long)new_size, tmp != NULL);
+  if (tmp && tmp->free_list->next && tmp->free_list->next->size > sexp_heap_align(sexp_free_chunk_size))
+    verif_poison((char*)tmp->free_list->next + sexp_heap_align(sexp_free_chunk_size),
+                 tmp->free_list->next->size - sexp_heap_align(sexp_free_chunk_size));
+#endif
   return (h->next != NULL);
 }
 
@@ -658,6 +908,9 @@ void* sexp_try_alloc (sexp ctx, size_t size) {
           fprintf(stderr, "alloced %lu bytes past end of heap: %p (%lu) >= %p"
                   " next: %p (%lu)\n", size, ls2, ls2->size, ls3, ls2->next,
                   (ls2->next ? ls2->next->size : 0));
+#endif
+#if SEXP_USE_VERIF_HOOKS
+        verif_unpoison(ls2, (ls2->size >= (size + SEXP_MINIMUM_OBJECT_SIZE)) ? size + sexp_heap_align(sexp_free_chunk_size) : ls2->size);
 #endif
         if (ls2->size >= (size + SEXP_MINIMUM_OBJECT_SIZE)) {
           ls3 = (sexp_free_list) (((char*)ls2)+size); /* the tail after ls2 */
@@ -714,6 +967,10 @@ void* sexp_alloc (sexp ctx, size_t size) {
   size_bucket = (size - SEXP_GC_PAD) / sexp_heap_align(1) - 1;
   ++sexp_context_alloc_histogram(ctx)[size_bucket >= SEXP_ALLOC_HISTOGRAM_BUCKETS ? SEXP_ALLOC_HISTOGRAM_BUCKETS-1 : size_bucket];
 #endif
+#if SEXP_USE_VERIF_HOOKS
+  /* not while a context is being bootstrapped (globals and type table incomplete) */
+  if (verif_gc_due() && !sexp_verif_bootstrapping) { ++sexp_verif_forced_gcs; sexp_gc(ctx, NULL); }
+#endif
   res = sexp_try_alloc(ctx, size);
   if (! res) {
     max_freed = sexp_unbox_fixnum(sexp_gc(ctx, &sum_freed));
@@ -733,6 +990,13 @@ void* sexp_alloc (sexp ctx, size_t size) {
       sexp_debug_printf("ran out of memory allocating %lu bytes => %p", size, res);
     }
   }
+#if SEXP_USE_VERIF_HOOKS
+  if (verif_trace) {
+    unsigned long verif_off = 0;
+    int verif_hi = verif_locate(ctx, res, &verif_off);
+    fprintf(verif_trace, "A %lu %d %lu\n", (unsigned long)size, verif_hi, verif_off);
+  }
+#endif
 #if SEXP_USE_TRACK_ALLOC_TIMES
   gettimeofday(&end, NULL);
   alloc_time = 1000000*(end.tv_sec - start.tv_sec) + (end.tv_usec - start.tv_usec);
